@@ -184,7 +184,21 @@ func selfTest(harnessDir string, full bool) (string, error) {
 		return "", fmt.Errorf("X-Wing spec vectors digest: got %s want %s", got, XWingSpecWant)
 	}
 	info = append(info, "X-Wing spec test-vectors.txt digest ok")
-	// 6. VerifyPSKInputs truth table of RFC 9180 section 5.1
+	// 6. interop fixtures produced by Go 1.26 crypto/hpke acting as sender (adds P-384 and HKDF-SHA384)
+	vs, err = LoadVectors(harnessDir, "go126_interop.json")
+	if err != nil {
+		return "", err
+	}
+	for i, v := range vs {
+		if err := CheckRecvVector(&v, nil); err != nil {
+			return "", fmt.Errorf("go126_interop.json[%d] (kem %#x kdf %d aead %d): %v", i, v.KEM, v.KDF, v.AEAD, err)
+		}
+	}
+	if len(vs) < 90 {
+		return "", fmt.Errorf("go126_interop.json: %d vectors", len(vs))
+	}
+	info = append(info, fmt.Sprintf("Go 1.26 crypto/hpke sender fixtures opened: %d", len(vs)))
+	// 7. VerifyPSKInputs truth table of RFC 9180 section 5.1
 	for mode := 0; mode < 4; mode++ {
 		for _, a := range [][]byte{nil, {}, {1}} {
 			for _, b := range [][]byte{nil, {}, {2}} {
@@ -502,4 +516,62 @@ func selfTestLadder(harnessDir string, full bool) (int, error) {
 		return 0, fmt.Errorf("X448 iterated test: %d checkpoints", done)
 	}
 	return n, nil
+}
+
+// RecvImpl is the recipient half of an implementation, for CheckRecvVector.
+type RecvImpl interface {
+	Derive(kem uint16, ikm []byte) (sk, pk []byte, err error)
+	Public(kem uint16, sk []byte) ([]byte, error)
+	SetupR(s Suite, skR, enc, info []byte) (open func(aad, ct []byte) ([]byte, error), export func(ctx []byte, L int) []byte, err error)
+}
+
+func (refImpl) SetupR(s Suite, skR, enc, info []byte) (func(aad, ct []byte) ([]byte, error), func(ctx []byte, L int) []byte, error) {
+	c, err := SetupR(s, ModeBase, enc, skR, info, nil, nil, nil)
+	if err != nil {
+		return nil, nil, err
+	}
+	return c.Open, c.Export, nil
+}
+
+// CheckRecvVector replays the recipient side of a base-mode vector whose
+// sender was randomised (enc, ciphertexts and exports are given).
+func CheckRecvVector(v *Vector, impl RecvImpl) error {
+	if impl == nil {
+		impl = refImpl{}
+	}
+	if v.Mode != ModeBase {
+		return fmt.Errorf("mode %d", v.Mode)
+	}
+	skR := H(v.SkRm)
+	if v.IkmR != "" {
+		sk, pk, err := impl.Derive(v.KEM, H(v.IkmR))
+		if err != nil {
+			return err
+		}
+		if !bytes.Equal(pk, H(v.PkRm)) {
+			return fmt.Errorf("pkRm from ikmR: got %x want %s", pk, v.PkRm)
+		}
+		skR = sk
+	} else {
+		pk, err := impl.Public(v.KEM, skR)
+		if err != nil || !bytes.Equal(pk, H(v.PkRm)) {
+			return fmt.Errorf("pk(skRm): err=%v got %x want %s", err, pk, v.PkRm)
+		}
+	}
+	open, export, err := impl.SetupR(Suite{v.KEM, v.KDF, v.AEAD}, skR, H(v.Enc), H(v.Info))
+	if err != nil {
+		return fmt.Errorf("recipient setup: %v", err)
+	}
+	for i, e := range v.Encryptions {
+		pt, err := open(H(e.Aad), H(e.Ct))
+		if err != nil || !bytes.Equal(pt, H(e.Pt)) {
+			return fmt.Errorf("open[%d]: err=%v got %x want %s", i, err, pt, e.Pt)
+		}
+	}
+	for i, e := range v.Exports {
+		if got := export(H(e.Context), e.L); !bytes.Equal(got, H(e.Value)) {
+			return fmt.Errorf("export[%d] (L=%d): got %x want %s", i, e.L, got, e.Value)
+		}
+	}
+	return nil
 }
